@@ -198,6 +198,18 @@ def cls_args_shadow_textual_lookup(f):
     return 'args_pop' in hist or 'args_' in hist
 
 
+def cls_attribute_shadowed_by_api(f):
+    """C03: attribute access differs from find for a name of the recorded node API."""
+    if f.kind != 'getattr':
+        return False
+    try:
+        with open(os.path.join(os.path.dirname(os.path.abspath(__file__)), 'baseline_api.json')) as fh:
+            base = set(json.load(fh))
+    except Exception:      # noqa
+        return False
+    return (f.opts or {}).get('name') in base
+
+
 def _env_names_of(src):
     """names of the environments of the tolerant parse of src (as strings)"""
     import impl
@@ -307,6 +319,11 @@ def reproduces(k):
                 return False
             except EOFError:
                 return True
+        if kid == 'KF-attribute-access-shadowed-by-node-api':
+            soup = impl.parse('\\text{x} and \\count{y}')
+            t, c = soup.find('text'), soup.find('count')
+            return t is not None and c is not None and not (
+                isinstance(soup.text, type(t)) and isinstance(soup.count, type(c)))
         if kid == 'KF-args-shadow-list-textual-lookup':
             soup = impl.parse('\\k{v}{v}')
             k = soup.find('k')
@@ -335,6 +352,7 @@ CLASSIFIERS = {
     'env_matched_by_end': cls_env_matched_by_end,
     'renamed_item_replace_only_child': cls_renamed_item_replace_only_child,
     'args_shadow_textual_lookup': cls_args_shadow_textual_lookup,
+    'attribute_shadowed_by_api': cls_attribute_shadowed_by_api,
     'bracket_env_name': cls_bracket_env_name,
     'skip_name_not_five_tokens': cls_skip_name_not_five_tokens,
     'env_name_padding': cls_env_name_padding,
